@@ -20,6 +20,7 @@ func init() {
 			"R1 every listing call reachable from the exporter passes includeDeleted=false; the recursive helper lists the children of its node (no type filter), and on every path through the loop over them recurses into a NodeEdgeChildren built from the element and appends it to Children afterwards; the marshalled value is built from the root after the helper ran; in every function the exporter reaches (declared helper or function literal) each exit that follows a failed listing call or failed callee reports the failure (non-nil error result, or for a literal a non-nil error variable of the enclosing function, which the exporter examines); " +
 			"R2 a key rewrite `Key = B` in the exporter is reachable only when the key equals A, where the store's point writer of that kind of point maps B back to A; the compaction of edge points drops a point only when its type is tombstone and its value is 0 and never leaves its loop early (enumerated over the 4 valuations); " +
 			"R3 in the id replacer every identifier written to a node or to the text of a point was looked up in the one map under the OLD value and, on a miss, freshly generated and stored under that old value (empty node ids excepted); exactly the node-id points with non-empty text are rewritten (an empty reference stays empty); every node receives the parent given by its caller and every child is visited through its slice element with the parent's NEW id; " +
+			"R6 the recursive import helper sends its own node on every successful path and recurses into every child; a skip keyed on the node id alone (not id and parent) is a violation because the send also creates the edge; " +
 			"R4 a string constant is concatenated to a point text only in the importer itself, on an element of Nodes[0].Points whose type is description; with preserve-ids no replacer call is reachable, without it every path to the send passes the replacer on &Nodes[0] with the requested parent; the top node's Parent is set to the requested parent before the send.",
 		Assumptions: []string{
 			"the YAML marshaller round-trips the exported structs (third-party, not analysed)",
@@ -170,13 +171,13 @@ func c15Find(c *kit.Ctx) *c15Anchors {
 			continue
 		}
 		for _, call := range f.AllCalls(false) {
-			if kit.CallIs(f.Info(), call, c15Yaml+".Marshal") && len(call.Args) == 1 && c15HasNECSlice(f.Info().TypeOf(call.Args[0])) {
+			if kit.CallIs(f.Info(), call, c15Yaml+".Marshal", c15Yaml+".MarshalWithOptions") && len(call.Args) >= 1 && c15HasNECSlice(f.Info().TypeOf(call.Args[0])) {
 				if a.exporter != nil && a.exporter != f {
 					c.Fatalf("two exporters: %s and %s", a.exporter.Name, f.Name)
 				}
 				a.exporter, a.marshal = f, call
 			}
-			if kit.CallIs(f.Info(), call, c15Yaml+".Unmarshal") && len(call.Args) == 2 && c15HasNECSlice(f.Info().TypeOf(call.Args[1])) {
+			if kit.CallIs(f.Info(), call, c15Yaml+".Unmarshal", c15Yaml+".UnmarshalWithOptions") && len(call.Args) >= 2 && c15HasNECSlice(f.Info().TypeOf(call.Args[1])) {
 				if a.importer != nil && a.importer != f {
 					c.Fatalf("two importers: %s and %s", a.importer.Name, f.Name)
 				}
@@ -329,6 +330,8 @@ func runC15(c *kit.Ctx) {
 	c15R2(c, a, r2)
 	c15R3(c, a, r3)
 	c15R4(c, a, r4)
+	r6 := c.Rule("R6", "import sends every node of the document with its own id and parent", 1)
+	c15R6(c, a, r6)
 	r5 := c.Rule("R5", "the store listing honours includeDeleted for every edge", 4)
 	c15ListingFilter(c, r5)
 }
@@ -372,6 +375,11 @@ func c15R1(c *kit.Ctx, a *c15Anchors, r1 *kit.Rule) {
 	}
 	if n == 0 {
 		c.Fatalf("no call of %s reachable from %s", a.list.Name, a.exporter.Name)
+	}
+	// serialisation options are third-party behaviour: not decided either way
+	if len(a.marshal.Args) > 1 || len(a.unmarshal.Args) > 2 {
+		r1.Ob(a.exporter, a.marshal, "serialisation options", "export and import use the plain Marshal/Unmarshal pair").
+			Undecided("the YAML marshaller is called with options (%s / %s): whether they preserve every string is a property of the third-party library, not decided here", a.exporter.Str(a.marshal), a.importer.Str(a.unmarshal))
 	}
 	c15HelperLoop(c, a, r1)
 	c15ExporterRoot(c, a, r1)
